@@ -87,6 +87,15 @@ pub struct Solo {}
 /// (each SI unit declared before its alias), declared in descending order of scale
 pub struct Heap {}
 
+#[quantity]
+#[ref_unit(Cell, "c", NONE)]
+#[unit(Kilocell, "Kc", KILO, 1024, "binary multiple: the scale is NOT ten to the prefix exponent")]
+#[unit(Megacell, "Mc", MEGA, 1048576)]
+#[unit(Millicell, "mc", MILLI, 0.0009765625)]
+#[unit(Page, "pg", 4096)]
+/// SI prefixes used for binary multiples: nothing may be derived from the prefix exponents
+pub struct Mem {}
+
 #[quantity(Ticks * Durs)]
 #[ref_unit(Tickdur, "t·kd", NONE)]
 #[unit(Millitickdur, "mt·kd", MILLI, 0.001)]
